@@ -235,7 +235,7 @@ func (gcs *GenerationalNBS) HasMany(ctx context.Context, hashes hash.HashSet) (h
 		return nil, err
 	}
 	if len(absent) == 0 || gcs.ghostGen == nil {
-		return nil, err
+		return absent, nil
 	}
 
 	return gcs.ghostGen.HasMany(ctx, absent)
